@@ -224,6 +224,7 @@ def dump(repo: str) -> dict:
 
     out["answers"] = [a for a in (_answer(k) for k in out["request_kinds"]) if a is not None]
     out["set_routes"] = _set_routes(parameter, ecomax_parameters, mixer_parameters, thermostat_parameters, schedules, dev_ecomax)
+    out["events_tables"] = _events_tables()
     return out
 
 
@@ -483,6 +484,7 @@ def emit_lean(d: dict) -> dict[str, str]:
     )
     body += "end PlumVerif.Gen\n"
     files["Requests.lean"] = body
+    files["EventsTables.lean"] = emit_events_tables(d, hdr)
     return files
 
 
@@ -537,6 +539,123 @@ def emit_scaling(d: dict, hdr: str) -> str:
         )
         + "\n\n"
     )
+    body += "end PlumVerif.Gen\n"
+    return body
+
+
+def _events_tables() -> dict:
+    """Reflection over `pyplumio.filters`, `EventManager` and the version bookkeeping of `PhysicalDevice`
+    (events worker, C13 / C15 / C20): a new, removed or renamed public filter factory / EventManager method, a changed
+    parameter list or default, a changed `__eq__` / `__hash__` arrangement breaks a named `decide` lemma in Props/."""
+    import math
+
+    from pyplumio import filters
+    from pyplumio.devices import PhysicalDevice
+    from pyplumio.devices import ecomax as dev_ecomax
+    from pyplumio.devices import ecoster as dev_ecoster
+    from pyplumio.helpers import event_manager
+
+    def params(fn, skip_self=False):
+        rows = []
+        for name, p in inspect.signature(fn).parameters.items():
+            if skip_self and name == "self":
+                continue
+            star = "*" if p.kind is p.VAR_POSITIONAL else "**" if p.kind is p.VAR_KEYWORD else ""
+            rows.append([star + name, "-" if p.default is p.empty else repr(p.default)])
+        return rows
+
+    def public(mod_or_cls):
+        return sorted(n for n in vars(mod_or_cls) if not n.startswith("_"))
+
+    async def _probe_cb(value):
+        return None
+
+    def probe(fn):
+        """the object a factory returns for a plain callback: is it a Filter, which class defines its `__eq__`, is it
+        hashable, is calling it a coroutine function; and does it compare equal to its own callback"""
+        args = [(_probe_cb if n == "callback" else (lambda v: True) if n == "filter_fn" else 1) for n, _ in params(fn)]
+        try:
+            obj = fn(*args)
+        except Exception as e:  # noqa: BLE001
+            return "probe-failed:" + type(e).__name__
+        eq_owner = next((c.__name__ for c in type(obj).__mro__ if "__eq__" in vars(c)), "?")
+        return ",".join([
+            "Filter" if isinstance(obj, filters.Filter) else "other",
+            "eq:" + eq_owner,
+            "unhashable" if type(obj).__hash__ is None else "hashable",
+            "async" if inspect.iscoroutinefunction(type(obj).__call__) else "sync",
+            "eq-callback" if obj == _probe_cb else "ne-callback",
+        ])
+
+    factories = []
+    for name in public(filters):
+        obj = getattr(filters, name)
+        if inspect.isfunction(obj) and obj.__module__ == filters.__name__:
+            factories.append([name, probe(obj), params(obj)])
+    classes = []
+    for name, obj in sorted(vars(filters).items()):
+        if inspect.isclass(obj) and obj.__module__ == filters.__name__ and not name.startswith("_") and not getattr(obj, "_is_protocol", False):
+            eq_owner = next(c.__name__ for c in obj.__mro__ if "__eq__" in vars(c))
+            classes.append([name, eq_owner, "unhashable" if obj.__hash__ is None else "hashable",
+                            "abstract" if inspect.isabstract(obj) else "concrete",
+                            params(obj.__init__, skip_self=True), "async" if inspect.iscoroutinefunction(obj.__call__) else "sync"])
+    rel = Fraction(inspect.signature(math.isclose).parameters["rel_tol"].default)
+    abs_default = Fraction(inspect.signature(math.isclose).parameters["abs_tol"].default)
+    em = event_manager.EventManager
+    methods = []
+    for name in sorted(n for n in vars(em) if not n.startswith("_") or n in ("__getattr__",)):
+        obj = vars(em)[name]
+        if isinstance(obj, property):
+            methods.append([name, "property", []])
+        elif inspect.iscoroutinefunction(obj):
+            methods.append([name, "async", params(obj, skip_self=True)])
+        elif inspect.isfunction(obj):
+            methods.append([name, "sync", params(obj, skip_self=True)])
+    from pyplumio import const as const_
+    setup = {}
+    for cls in (dev_ecomax.EcoMAX, dev_ecoster.EcoSTER):
+        setup[cls.__name__] = [int(d.frame_type) for d in cls._setup_frames]
+    from pyplumio.structures import frame_versions as fv
+    return {
+        "filter_factories": factories,
+        "filter_classes": classes,
+        "isclose_rel_tol": [rel.numerator, rel.denominator],
+        "isclose_abs_tol_default": [abs_default.numerator, abs_default.denominator],
+        "event_manager_api": methods,
+        "setup_kinds": setup,
+        "attr_frame_versions": fv.ATTR_FRAME_VERSIONS,
+        "attr_frame_errors": const_.ATTR_FRAME_ERRORS,
+        "has_frame_version": params(PhysicalDevice.has_frame_version, skip_self=True),
+        "request_defaults": params(PhysicalDevice.request, skip_self=True),
+    }
+
+
+def emit_events_tables(d: dict, hdr: str) -> str:
+    t = d["events_tables"]
+
+    def plist(rows):
+        return "[" + ", ".join(f"({lean_str(a)}, {lean_str(b)})" for a, b in rows) + "]"
+
+    body = hdr + "namespace PlumVerif.Gen\n\n"
+    body += "/-- public factory functions of `pyplumio.filters`: (name, probe of the returned object, [(parameter, default or -)]) -/\n"
+    body += "def filterFactories : List (String × String × List (String × String)) := " + lean_list(
+        [f"({lean_str(n)}, {lean_str(c)}, {plist(ps)})" for n, c, ps in t["filter_factories"]], 1) + "\n\n"
+    body += ("/-- the public classes of `pyplumio.filters` (protocols left out): (class, class that defines `__eq__`, hashability, abstract / concrete,\n"
+             "    `__init__` parameters, whether `__call__` is a coroutine function) -/\n")
+    body += "def filterClasses : List (String × String × String × String × List (String × String) × String) := " + lean_list(
+        [f"({lean_str(n)}, {lean_str(e)}, {lean_str(h)}, {lean_str(v)}, {plist(ps)}, {lean_str(a)})" for n, e, h, v, ps, a in t["filter_classes"]], 1) + "\n\n"
+    body += "/-- the default `rel_tol` of `math.isclose` (the filters pass only `abs_tol`) as an exact rational -/\n"
+    body += f"def iscloseRelTolNum : Nat := {t['isclose_rel_tol'][0]}\ndef iscloseRelTolDen : Nat := {t['isclose_rel_tol'][1]}\n\n"
+    body += "/-- what `EventManager` itself defines (public names and `__getattr__`): (name, kind, parameters) -/\n"
+    body += "def eventManagerApi : List (String × String × List (String × String)) := " + lean_list(
+        [f"({lean_str(n)}, {lean_str(k)}, {plist(ps)})" for n, k, ps in t["event_manager_api"]], 1) + "\n\n"
+    body += "/-- request kinds asked for during set-up (`_setup_frames`), per physical device class -/\n"
+    body += "def setupKinds : List (String × List Nat) := " + lean_list(
+        [f"({lean_str(n)}, [{', '.join(map(str, ks))}])" for n, ks in sorted(t["setup_kinds"].items())], 1) + "\n\n"
+    body += f"def attrFrameVersions : String := {lean_str(t['attr_frame_versions'])}\n"
+    body += f"def attrFrameErrors : String := {lean_str(t['attr_frame_errors'])}\n"
+    body += f"def hasFrameVersionParams : List (String × String) := {plist(t['has_frame_version'])}\n"
+    body += f"def requestParams : List (String × String) := {plist(t['request_defaults'])}\n\n"
     body += "end PlumVerif.Gen\n"
     return body
 
